@@ -1,0 +1,16 @@
+//go:build verif
+
+// Contracts for the SGX measurement types (C16, C18). Comment-only.
+package sgx
+
+//@ func MrEnclave.UnmarshalBinary
+//@   props C16 C18
+//@   safety bounds nil
+//@   ensures (err == nil) == (len(data) == MrEnclaveSize)
+//@   note an enclave measurement decodes from exactly 32 bytes
+
+//@ func MrSigner.UnmarshalBinary
+//@   props C16 C18
+//@   safety bounds nil
+//@   ensures (err == nil) == (len(data) == MrSignerSize)
+//@   note a signer measurement decodes from exactly 32 bytes
